@@ -136,6 +136,18 @@ def apply_op(doc: Any, op: dict) -> Any:
         if not jeq(target, op["value"]):
             raise Refused("test", "the values are not equal")
         return doc
+    # the two documented extensions of the library, as its documentation words them
+    if name == "addne":  # add, but an existing object member is left untouched
+        parent = _get(doc, path[:-1]) if path else None
+        if isinstance(parent, dict) and path[-1] in parent:
+            return doc
+        return _add(doc, path, copy.deepcopy(op["value"]))
+    if name == "addap":  # add, but append when the array index cannot be resolved
+        parent = _get(doc, path[:-1]) if path else None
+        if isinstance(parent, list) and not (path[-1] == "-" or (_INDEX.match(path[-1]) and int(path[-1]) <= len(parent))):
+            parent.append(copy.deepcopy(op["value"]))
+            return doc
+        return _add(doc, path, copy.deepcopy(op["value"]))
     raise Refused("error", f"unknown operation {name!r}")
 
 
